@@ -546,7 +546,14 @@ def producer_pairing(ctx):
                     sp = [ref_spin.get(x.id) if isinstance(x, ast.Name) else None for x in v.args[0].elts]
                     got = str(sp)
                     ok = sp == [0, 1]
-    ctx.ob("PAIR-1", "get_excitations: ref_det = [alpha reference, beta reference]", ok, f"spins of the stacked references {got}", fi)
+    if got == "?":
+        # the stacking is not written as array([ref_a, ref_b]) inside get_excitations itself (moved to a helper, built
+        # another way): nothing identified, no claim
+        ctx.rep.note("get_excitations: the reference-determinant stack was not identified; the [alpha, beta] order rule does "
+                     "not apply")
+    else:
+        ctx.ob("PAIR-1", "get_excitations: ref_det = [alpha reference, beta reference]", ok,
+               f"spins of the stacked references {got}", fi)
     # get_fci_state: (coeff, alpha strings, beta strings) = zip(*large_ci(...)); det[s] filled from list s over nelec[s]
     gf = p.func(f"{PI}.get_fci_state")
     unpack = None
@@ -646,10 +653,11 @@ def read_dets(ctx):
                 continue
             blocks = []
             for st in nd.body:
-                if isinstance(st, ast.Assign) and isinstance(st.targets[0], ast.Subscript) and \
-                        isinstance(st.targets[0].value, ast.Subscript) and isinstance(st.targets[0].value.slice, ast.Constant) \
-                        and isinstance(st.value, ast.Constant) and st.value.value == 1:
-                    blocks.append(st.targets[0].value.slice.value)
+                if isinstance(st, ast.Assign) and isinstance(st.value, ast.Constant) and st.value.value == 1:
+                    for tg_ in st.targets:          # det[0][j] = det[1][j] = 1 stores into both targets
+                        if isinstance(tg_, ast.Subscript) and isinstance(tg_.value, ast.Subscript) and \
+                                isinstance(tg_.value.slice, ast.Constant):
+                            blocks.append(tg_.value.slice.value)
             mapping[key_] = sorted(blocks)
     want = {b"a": [0], b"b": [1], b"2": [0, 1]}
     if not mapping or not any(mapping.values()):
